@@ -50,6 +50,28 @@ pub struct SchedObs {
     pub phase: usize,
     pub delivered_when_collected: Option<usize>,
     pub out_len_when_collected: Option<usize>,
+    /// first request whose finishing action had returned while its response was not yet on the
+    /// client's side: (request index, final responses on the wire, final responses due)
+    pub late: Option<(usize, usize, usize)>,
+}
+
+/// number of complete final responses at the start of `out` (HEAD-ness per expected message)
+fn finals_on_wire(out: &[u8], heads: &[bool]) -> usize {
+    let mut pos = 0;
+    let mut n = 0;
+    while pos < out.len() {
+        let head = heads.get(n).copied().unwrap_or(false);
+        match vcore::respparse::parse_one(&out[pos..], head) {
+            Ok(m) => {
+                pos += m.consumed;
+                if m.status >= 200 {
+                    n += 1;
+                }
+            }
+            Err(_) => break,
+        }
+    }
+    n
 }
 
 pub fn run_sched_conv(sc: &SchedConvCase) -> SchedObs {
@@ -58,6 +80,21 @@ pub fn run_sched_conv(sc: &SchedConvCase) -> SchedObs {
     let enter_seq: Arc<StdMutex<Vec<usize>>> = Arc::new(StdMutex::new(vec![]));
     let phase = Arc::new(AtomicUsize::new(0));
     let collected: Arc<StdMutex<(Option<usize>, Option<usize>)>> = Arc::new(StdMutex::new((None, None)));
+    let late: Arc<StdMutex<Option<(usize, usize, usize)>>> = Arc::new(StdMutex::new(None));
+    let late2 = late.clone();
+    let exp0 = expect(&sc.case);
+    // for each request index: how many final responses are due once it has been answered
+    let due: Vec<Option<usize>> = (0..sc.case.conv.reqs.len())
+        .map(|i| {
+            let produces = matches!(sc.case.prog(i).finish, Finish::Respond { .. } | Finish::Writer { .. } | Finish::Drop);
+            if produces && exp0.msgs.iter().any(|m| m.req_idx == i) {
+                Some(exp0.msgs.iter().filter(|m| m.req_idx <= i).count())
+            } else {
+                None
+            }
+        })
+        .collect();
+    let heads0: Vec<bool> = exp0.msgs.iter().map(|m| m.head).collect();
     let scc = sc.clone();
     let (cd, res2, es2, ph2, col2) = (checks_done.clone(), result.clone(), enter_seq.clone(), phase.clone(), collected.clone());
     let exec = run_exec(&sc.tape, checks_done.clone(), move || {
@@ -117,6 +154,7 @@ pub fn run_sched_conv(sc: &SchedConvCase) -> SchedObs {
             let client3 = client.clone();
             let collect_first = sc.collect_first && gi == 0;
             let hold_after_read = sc.hold_after_read;
+            let (late3, due3, heads3, client5) = (late2.clone(), due.clone(), heads0.clone(), client.clone());
             let enter_order = sc.enter_order.clone();
             handlers.push(shuttle::thread::spawn(move || {
                 if collect_first {
@@ -186,6 +224,17 @@ pub fn run_sched_conv(sc: &SchedConvCase) -> SchedObs {
                         s4.cv.notify_all();
                     };
                     interp::handle_with(rq, &prog, "00000000", 0, &sink3, &before);
+                    // the finishing action has returned: the response (and all earlier ones) is
+                    // with the client, whoever else still holds a request of this connection
+                    if let Some(want) = due3.get(idx).copied().flatten() {
+                        let have = finals_on_wire(&client5.output(), &heads3);
+                        if have < want {
+                            let mut l = late3.lock().unwrap();
+                            if l.is_none() {
+                                *l = Some((idx, have, want));
+                            }
+                        }
+                    }
                 }
             }));
         }
@@ -226,7 +275,8 @@ pub fn run_sched_conv(sc: &SchedConvCase) -> SchedObs {
     obs.delivered.sort_by_key(|d| d.id.unwrap_or(u32::MAX));
     let c = collected.lock().unwrap().clone();
     let enter_seq_v: Vec<usize> = enter_seq.lock().unwrap().clone();
-    SchedObs { obs, exec, enter_seq: enter_seq_v, phase: phase.load(Ordering::SeqCst), delivered_when_collected: c.0, out_len_when_collected: c.1 }
+    let late_v = *late.lock().unwrap();
+    SchedObs { obs, exec, enter_seq: enter_seq_v, phase: phase.load(Ordering::SeqCst), delivered_when_collected: c.0, out_len_when_collected: c.1, late: late_v }
 }
 
 impl SlotSt {
